@@ -163,6 +163,9 @@ def main():
         # 3. cases
         rng = random.Random(seed)
         cases, dist = chk.cases(rng, tier)
+        cases, dropped = lib.budget(cases, 300e6 if tier == 'quick' else 700e6, random.Random(seed + 17))
+        if dropped:
+            dist['long_cases_dropped_over_size_budget'] = dropped
         results = run_cases(chk, cases, bins, workdir, 'main')
         ev['coverage']['extraction_crosscheck_inputs'] = lib.extraction_crosscheck(cases, workdir)
         violations, known, mismatches, distinct = evaluate(chk, cases, results, workdir)
